@@ -65,6 +65,9 @@ def cases(draw, tier):
     if draw(st.integers(0, 5)) == 0:
         case["twin"] = [draw(st.integers(-3, 3)), draw(st.integers(-3, 3))]
     case["gdata"] = draw(st.booleans())
+    if draw(st.integers(0, 3)) == 0:
+        case["nudge"] = [draw(st.sampled_from([-1, 1, 0])),
+                         draw(st.sampled_from([-1, 1, 0]))]
     npts = draw(st.integers(1, 6))
     # point coordinates in eighths of a fine cell (exact squared
     # distances): on centres, edges, and several points close to the same
@@ -134,6 +137,12 @@ def oracle(case):
                       + ("0" if case["twin"] == [0, 0] else "whole-cells"))
     if abs(case["ox"]) > 1000:
         labels.append("origin-far-from-zero")
+    if case.get("nudge"):
+        # the grid moved by a hair (5e-11 of a fine cell): centres that were
+        # on an edge are now strictly inside a cell, 5e-11 from its edge
+        gx = gx + case["nudge"][0] * 5e-11 * csz
+        gy = gy + case["nudge"][1] * 5e-11 * csz
+        labels.append("grid-moved-by-a-hair")
     g = Grid("g", gnc, gnr, cellsize=C, xllcorner=gx, yllcorner=gy)
     if case.get("gdata"):
         # the grid the catchment is intersected with holds values of its
